@@ -41,6 +41,8 @@ def cases(tier, seed):
     for sc, c in common.add_algs(common.wide_scope(lvl),
                                  lambda c: common.wide_algs(c, lvl)):
         out.append((sc, dict(c, delay={"mode": "choice", "arity": 3})))
+    from . import C19
+    out += C19.zero_volume_cases()
     adv = common.thin(base, 5) if tier != "thorough" else common.thin(base, 6)
     for sc, c in adv:
         for alg in ({"kind": "advqueue"}, {"kind": "advbatch", "p": 2,
@@ -99,6 +101,8 @@ def run(rep, tier, seed):
                            "light": False,
                            "horizon": e1.horizon_of(case)},
                           {"rows": bad[0], "executed": bad[1]}, sc)
+
+    rep.confirm = replay
 
 
 def replay(payload):
